@@ -551,6 +551,25 @@ func (sc *scen) act(r *rand.Rand) {
 	case x < 58:
 		if len(myStreams) < 2 {
 			sc.publish(c, r, "")
+			if c.present && r.IntN(4) == 0 && !sc.bad {
+				// close the stream again inside galene's 200 ms push delay (counted from the
+				// arrival of the last track): the delayed push races with the close
+				var id string
+				for sid, u := range sc.streams {
+					if u.pub == c && u.live && (id == "" || sid > id) {
+						id = sid
+					}
+				}
+				if u := sc.streams[id]; u != nil {
+					d := time.Duration(r.IntN(160)) * time.Millisecond
+					time.Sleep(d)
+					sc.note(fmt.Sprintf("%s closes %s again %v after its last track started", c.name, id, d+70*time.Millisecond))
+					u.live, u.why = false, "closed by the publisher right after publishing"
+					close(u.stop)
+					u.up.Close()
+					sc.run.Count("streams_closed_within_push_delay", 1)
+				}
+			}
 		} else {
 			sc.request(c, r)
 		}
